@@ -456,6 +456,14 @@ func (fr *Frame) collectNames() {
 			put("&"+l.Comment, l)
 		}
 	}
+	// address-taken variables that escape to the heap (captured by closures)
+	for _, b := range fr.fn.Blocks {
+		for _, in := range b.Instrs {
+			if a, ok := in.(*ssa.Alloc); ok && a.Heap && a.Comment != "" && a.Comment != "complit" && a.Comment != "varargs" && a.Comment != "new" {
+				put("&"+a.Comment, a)
+			}
+		}
+	}
 }
 
 // ---------------------------------------------------------------------------
@@ -597,6 +605,16 @@ func (fr *Frame) step(in ssa.Instruction, st *State, reach string, back map[[2]i
 		fr.vals[x] = r
 		if isAggregate(elem) {
 			vc.zeroStruct(st, elem, r, 0)
+			// ghost fields of a fresh object start at their zero value
+			for _, key := range sortedKeys(vc.DB.Ghosts) {
+				g := vc.DB.Ghosts[key]
+				if g.Global || g.Recv != typeKey(elem) {
+					continue
+				}
+				gs := ghostSort(g.Sort)
+				hv := vc.heapVar("GF!"+g.Name, "(Array Int "+gs+")")
+				vc.set(st, hv, vc.hsort[hv], fmt.Sprintf("(store %s %s %s)", vc.look(st, hv), r, zeroOf(gs)))
+			}
 		} else {
 			a := vc.cellAddr(elem, r)
 			fr.addrs[x] = a
